@@ -12,6 +12,8 @@ CAN_ADDALL = {'array', 'list', 'map', 'hashset'}
 CAN_SWAP = {'array', 'list', 'hashmap', 'hashset', 'poollist', 'poolmap'}
 HAS_CAPCTOR = {'array', 'hashmap', 'hashset', 'poolmap'}
 SORTED = {'map', 'multimap'}
+# the one-line wrappers around insert(begin() / end(), ..): List / HashMap / HashSet::prepend, append; PoolMap::append
+WRAP = {'list': 'fb', 'hashmap': 'fb', 'hashset': 'fb', 'poolmap': 'b'}
 
 
 # ------------------------------------------------------------------------------------------
@@ -68,6 +70,8 @@ def ins_op(rng, pic, x, alias, p=None):
     ka = (ref(rng, pic, x, alias, True) or str(pic.key(rng))) if k in HAS_KEY else '-'
     va = (ref(rng, pic, x, alias, False) or str(small(rng))) if k in NEED_VAL else '-'
     pic.size[x] += 1
+    if p in WRAP.get(k, '') and rng.random() < 0.5:
+        return 'insw %d %s %s %s' % (x, p, ka, va)       # prepend(..) / append(..)
     return 'ins %d %s %s %s' % (x, p, ka, va)
 
 
@@ -136,6 +140,7 @@ def gen_case(rng, kind, nops, alias=0.25, valid=True, mixed=False, collide=False
                 continue
             if not valid:
                 ops.append(rng.choice(['sort %d' % x, 'find %d 1' % x, 'inshint %d b 1 1' % x, 'emplace %d 1 2' % x, 'appvals %d 1' % x,
+                                       'insw %d f 1 1' % x, 'insw %d b k%d.0 v%d.0' % (x, x, x),
                                        'find %d k%d.0' % (x, x), 'find %d v%d.0' % (x, x), 'newcap %d %s 3' % (x, k)]))
                 continue
         if r < 0.45:
@@ -280,6 +285,8 @@ def selfarg_cases(thorough):
                     va = 'v0.%d' % i if kind in NEED_VAL else '-'
                     for p in ['f', 'b']:
                         cases.append(base + ['ins 0 %s %s %s' % (p, ka, va), 'ins 0 %s %s %s' % (p, ka, va)])
+                        if p in WRAP.get(kind, ''):
+                            cases.append(base + ['insw 0 %s %s %s' % (p, ka, va), 'insw 0 %s %s %s' % (p, ka, va)])
                     if kind in HAS_KEY and kind in NEED_VAL:
                         cases.append(base + ['ins 0 b 77 v0.%d' % i, 'ins 0 b k0.%d 5' % i, 'ins 0 f k0.%d v0.%d' % (i, (i + 1) % n)])
                     if kind not in ('array', 'poollist'):
@@ -304,10 +311,10 @@ def collision_cases(thorough):
                     order = [7]                                   # iteration order
                     for j, key in enumerate(perm):
                         if fronts and j % 2:
-                            base.append('ins 0 f %d %s' % (key, va(key)))
+                            base.append('%s 0 f %d %s' % ('insw' if kind in WRAP and 'f' in WRAP[kind] else 'ins', key, va(key)))
                             order.insert(0, key)
                         else:
-                            base.append('ins 0 b %d %s' % (key, va(key)))
+                            base.append('%s 0 b %d %s' % ('insw' if fronts else 'ins', key, va(key)))
                             order.append(key)
                     for victim in perm:
                         i = order.index(victim)
@@ -325,6 +332,39 @@ def collision_cases(thorough):
                                                  'remkey 0 %d' % others[0], 'remkey 0 %d' % victim, 'swap 0 0'] +
                                          (['copy 1 0', 'remkey 1 %d' % others[-1], 'asg 0 1', 'asg 0 0'] if kind in COPYABLE else
                                           ['new 1 %s' % kind, 'swap 0 1', 'remkey 1 %d' % others[-1], 'ins 0 b %d %s' % (victim, va(8))]))
+    return cases
+
+
+def wrapper_cases(thorough):
+    """round 5: prepend / append(key[, value]) of List, HashMap, HashSet, PoolMap::append(key) with the
+    container's OWN key and / or value as arguments (first / middle / last element; table kinds also with
+    keys that share a bucket), with a key that is present (HashMap: assigns the own value) or absent,
+    at sizes around the item-block size; then the container is used on"""
+    cases = []
+    sizes = range(0, 10) if thorough else [1, 2, 4, 5, 8]
+    for kind, ps in sorted(WRAP.items()):
+        for n in sizes:
+            for colliding in ([False, True] if kind in TABLE else [False]):
+                keys = [1 + (500 * j if colliding else j) for j in range(n)]
+                ka = lambda z: str(z) if kind in HAS_KEY else '-'
+                va = lambda z: str(z % 89) if kind in NEED_VAL else '-'
+                base = ['new 0 %s' % kind] + ['insw 0 %s %s %s' % (ps[j % len(ps)], ka(z), va(10 * z)) for j, z in enumerate(keys)]
+                for i in sorted({0, n - 1, n // 2}) if n else []:
+                    ko = 'k0.%d' % i if kind in HAS_KEY else '-'
+                    vo = 'v0.%d' % i if kind in NEED_VAL else '-'
+                    vo2 = 'v0.%d' % ((i + 1) % n) if kind in NEED_VAL else '-'
+                    for p in ps:
+                        tail = ['find 0 %s' % (ko if kind in HAS_KEY else vo), 'rempop 0 %s' % p, 'insw 0 %s %s %s' % (p, ko, vo)]
+                        cases.append(base + ['insw 0 %s %s %s' % (p, ko, vo), 'insw 0 %s %s %s' % (p, ko, vo2)] + tail)
+                        if kind in HAS_KEY:
+                            cases.append(base + ['insw 0 %s %s %s' % (p, ko, va(7)), 'remat 0 %d' % i, 'insw 0 %s %s %s' % (p, 'k0.0' if n > 1 else '3', va(8))] + tail[:1])
+                        if kind in NEED_VAL:
+                            cases.append(base + ['insw 0 %s %s %s' % (p, ka(9001), vo), 'insw 0 %s %s %s' % (p, ka(501), vo)] + tail[:2])
+                cases.append(base + ['insw 0 %s %s %s' % (ps[0], ka(77), va(5)), 'insw 0 %s %s %s' % (ps[-1], ka(77), va(6)), 'clear 0',
+                                     'insw 0 %s %s %s' % (ps[0], ka(1), va(1)), 'insw 0 %s %s %s' % (ps[-1], 'k0.0' if kind in HAS_KEY else '-', 'v0.0' if kind in NEED_VAL else '-')])
+    for kind in ('array', 'map', 'multimap', 'poollist'):          # kinds without the wrappers: not performed
+        cases.append(['new 0 %s' % kind] + fill(kind, 0, 2) + ['insw 0 f 1 1', 'insw 0 b 1 1', 'insw 0 b k0.0 v0.0'])
+    cases.append(['new 0 poolmap', 'insw 0 b 1 -', 'insw 0 f 2 -', 'insw 0 f k0.0 -', 'insw 0 b k0.0 -', 'insw 0 b 501 -'])
     return cases
 
 
@@ -479,6 +519,9 @@ def exhaustive_cases(kind, depth):
     if kind in CAN_ADDALL:
         alpha += ['addall 0 b 0', 'addall 0 f 1']
     alpha += ['rempop 0 b']
+    if kind in WRAP:
+        # round 5: prepend / append with the container's own key / value
+        alpha += ['insw 0 %s %s %s' % (WRAP[kind][0], 'k0.0' if kind in HAS_KEY else '-', 'v0.0' if kind in NEED_VAL else '-')]
     if kind == 'array':
         alpha += ['resize 0 5 v0.0', 'reserve 0 4', 'apprange 0 0 0 2', 'rematit 0 1']
     if kind == 'hashset':
@@ -547,14 +590,14 @@ def tag_of(case, k, got, exp=''):
         if eff in ('ok', 'skip', 'end'):
             g = got.split(' | ')[1] if ' | ' in got else ''
             e = exp.split(' | ')[1] if ' | ' in exp else ''
-            cnt = lambda s, f: (re.findall(f + r'=(\d+)', s) or [''])[0]
+            cnt = lambda s, f: (re.findall(f + r'=(-?\d+)', s) or [''])[0]
             if eff != exp.split(' | ')[0]:
                 eff = 'performed-or-not'
-            elif g.split(' ; live=')[0] != e.split(' ; live=')[0] and ' ; live=' in g:
+            elif g.split(' ; stored=')[0] != e.split(' ; stored=')[0] and ' ; stored=' in g:
                 eff = 'contents'
             elif cnt(g, 'bad') != cnt(e, 'bad'):
                 eff = 'registry-anomaly'
-            elif cnt(g, 'live') != cnt(e, 'live'):
+            elif cnt(g, 'stored' if 'stored=' in e else 'live') != cnt(e, 'stored' if 'stored=' in e else 'live'):
                 eff = 'live-instances'
             elif cnt(g, 'nb') != cnt(e, 'nb'):
                 eff = 'live-allocations'
@@ -722,6 +765,7 @@ class C04(Check):
         out.append(Stream('hint', hint_cases(thorough), note='Map / MultiMap insert(position, k, v): every hint x every key position, own elements as arguments; Map::insert(Map)'))
         out.append(Stream('emplace', emplace_cases(), note='PoolList::append with 0..8 arguments, integers or references to own elements'))
         out.append(Stream('capacity', capacity_cases(thorough), note='(capacity) constructors of Array / HashMap / HashSet / PoolMap'))
+        out.append(Stream('wrappers', wrapper_cases(thorough), note='prepend / append(key[, value]) of List / HashMap / HashSet / PoolMap with own keys and values as arguments'))
         if thorough:
             for k in KINDS:
                 out.append(Stream('exh4-' + k, exhaustive_cases(k, 4), exhaustive=False, note='all depth-4 histories over the alphabet'))
